@@ -12,7 +12,7 @@ RULE = ("(diff) for both curves, scalars a, b in [0, r] (boundary, uniform, 0 an
         "optimized inputs: coefficient list of optimized pairing(bG2, aG1) == that of the reference pairing; "
         "(split) for both optimized modules and lists of 1..6 scalar pairs: final_exponentiate(prod pairing(Q_i, "
         "P_i, final_exponentiate=False)) == prod pairing(Q_i, P_i); (fexp) for FQ12 elements 0, 1, w, w^11, "
-        "sparse (k of 12 coefficients), uniform and unitary / cyclotomic elements y^(p^6-1), y^((p^6-1)(p^2+1)) built by the model: optimized-BLS final_exponentiate(x) == x ** ((p^12-1)//r) and "
+        "sparse (k of 12 coefficients), structured-support (low degree a + b w, the subfields Fp / Fp2 / Fp6, one twisted pair, top half), uniform and unitary / cyclotomic elements y^(p^6-1), y^((p^6-1)(p^2+1)) built by the model: optimized-BLS final_exponentiate(x) == x ** ((p^12-1)//r) and "
         "exp_by_p(x) == x ** p, every module's final_exponentiate == the model's plain power; (interleaved) the two optimized curves' exponentiation entry points called alternately in one process in a drawn order, each result compared with the plain power. Non-trivial = a "
         "differential case with a*b not in {0, 1, -1} mod r, a split case with >= 2 factors, an exponentiation "
         "case with x not in {0, 1}; distinct by input digest")
@@ -21,7 +21,7 @@ ASSUMPTIONS = ["reference pairings are the specification for the optimized ones 
 ENGINE = "hypothesis (differential and metamorphic)"
 TECHNIQUE = ("differential and metamorphic property-based testing (Hypothesis): optimized vs reference pairing, split vs product, fast vs plain exponentiation, curves interleaved in one process")
 _REQ = ["interleaved:both_curves", "diff:identity_argument", "diff:bn128", "diff:bls12_381", "diff:scaled", "split:optimized_bn128", "split:optimized_bls12_381",
-        "split:n>=2", "fexp:optimized_bls12_381", "fexp:exp_by_p", "fexp:x=0", "fexp:unitary", "fexp:sparse", "fexp:model_power",
+        "split:n>=2", "fexp:optimized_bls12_381", "fexp:exp_by_p", "fexp:x=0", "fexp:unitary", "fexp:sparse", "fexp:low_degree", "fexp:in_Fp2", "fexp:in_Fp6", "fexp:model_power",
         "fexp:bn128", "fexp:optimized_bn128", "fexp:bls12_381"]
 REQUIRED_LABELS = {"quick": _REQ, "thorough": _REQ}
 
@@ -108,6 +108,13 @@ def o_fexp(ctx, case):
     nz = sum(1 for c in x if c % C.p)
     if nz and C.F12.pow(C.F12.el(x), C.p ** 6 + 1) == C.F12.one:
         ctx.label("fexp:unitary")
+    sup = [i for i, c in enumerate(x) if c % C.p]
+    if nz >= 2 and max(sup) <= 5:
+        ctx.label("fexp:low_degree")
+    if nz >= 2 and all(i % 6 == 0 for i in sup):
+        ctx.label("fexp:in_Fp2")
+    elif nz >= 3 and all(i % 2 == 0 for i in sup):
+        ctx.label("fexp:in_Fp6")
     if nz == 0:
         ctx.label("fexp:x=0")
     elif nz <= 3:
@@ -167,7 +174,15 @@ def s_x(p):
     coef = st.one_of(st.just(0), st.just(0), st.sampled_from([1, 2, p - 1]), uniform_int(0, p - 1))
     dense = st.lists(uniform_int(0, p - 1), min_size=12, max_size=12)
     sparse = st.lists(coef, min_size=12, max_size=12)
-    return st.one_of(dense, sparse, sparse)
+    # elements with a structured support: low degree (a + b w, degree <= 5: products that need no reduction),
+    # subfields (Fp: index 0; Fp2: indices 0, 6; Fp6: even indices), a single twisted pair (k, k + 6), the top half
+    nzc = st.one_of(st.sampled_from([1, 2, 3, p - 1]), uniform_int(1, p - 1))
+    supports = [[0, 1], [0, 1, 2], [0, 1, 2, 3, 4, 5], [2, 3, 5], [0], [0, 6], [0, 2, 4, 6, 8, 10], [1, 7], [3, 9], [6, 7, 8, 9, 10, 11],
+                [1], [5], [0, 11], [0, 1, 6, 7]]
+    shaped = st.sampled_from(supports).flatmap(
+        lambda sup: st.lists(nzc, min_size=len(sup), max_size=len(sup)).map(
+            lambda vs: [dict(zip(sup, vs)).get(i, 0) for i in range(12)]))
+    return st.one_of(dense, sparse, sparse, shaped, shaped)
 
 
 def unitary(curve, y, cyclotomic):
@@ -194,6 +209,8 @@ def _fexp_examples(name):
     unit = lambda i: [0] * i + [1] + [0] * (11 - i)   # noqa: E731
     curve = pc.CURVE_OF[name]
     ex = [{"module": name, "x": x, "model": True} for x in ([0] * 12, unit(0), unit(1), unit(11), unit(6))]
+    ex += [{"module": name, "x": x, "model": True} for x in ([3, 2] + [0] * 10, [0, 0, 5, 7, 0, 11] + [0] * 6,
+                                                              [4, 0, 0, 0, 0, 0, 9, 0, 0, 0, 0, 0], [1, 0, 2, 0, 3, 0, 4, 0, 5, 0, 6, 0])]
     ex.append({"module": name, "x": unitary(curve, [3, 1, 4, 1, 5, 9, 2, 6, 5, 3, 5, 8], False), "model": True})
     ex.append({"module": name, "x": unitary(curve, [2, 7, 1, 8, 2, 8, 1, 8, 2, 8, 4, 5], True), "model": True})
     return ex
